@@ -590,6 +590,7 @@ func run(m *mon.M) {
 		}
 		e.close()
 	}
+	runSiblings(m)
 }
 
 func trimCase(c *Case) *Case {
